@@ -1,9 +1,9 @@
 (* Extract.v — extraction of the executable models and judges to OCaml.
    Only ExtrOcamlBasic is used: bool, option, list, prod, unit, sumbool map to OCaml's own types;
    nat, positive and Z stay the extracted inductive types (no Extract Constant, no ExtrOcamlZInt). *)
-From Cmr Require Import Base Det CtuModel PivotModel TuModel.
+From Cmr Require Import Base Det CtuModel PivotModel TuModel SpModel.
 Require Import ExtrOcamlBasic.
 Extraction Language OCaml.
 Extraction "cmr_model.ml"
   Z.add Z.mul Z.opp
-  judge_ctu_compl judge_ctu_test judge_pivot judge_tu judge_regular.
+  judge_ctu_compl judge_ctu_test judge_pivot judge_tu judge_regular judge_sp judge_balanced.
